@@ -123,6 +123,8 @@ func TestVerifE5Replay(t *testing.T) {
 		vfE5ReplayDoubleDelete(t, name)
 	case "chan_double_delete_unlinks_fresh", "chan_double_delete_waits":
 		vfE5ReplayChanDoubleDelete(t, name)
+	case "sync_every_zero_delete", "sync_every_negative_delete", "sync_every_one_delete":
+		vfE5ReplaySyncEvery(t, name)
 	case "topic_delete_races_sub", "topic_delete_races_sub_early", "topic_delete_races_create_channel":
 		vfE5ReplayTopicDeleteSub(t, name)
 	case "f9_pump_holds":
@@ -1415,4 +1417,60 @@ func vfE5ReplayChanDoubleDelete(t *testing.T, name string) {
 	wrong := fresh && d2err == nil && (!stillMapped || got < acked || !listed)
 	fmt.Printf("E5REPLAY %s a_sub=%s a_closed=%v d1=%s d2=%s d2_err=%v fresh_channel=%v b_sub=%s acked=%d fresh_still_in_map=%v fresh_exiting=%v b_closed=%v b_got_messages=%d listed_in_metadata=%v older_delete_hit_fresh_channel=%v\n",
 		name, strings.Join(fa, ","), aClosed, r1, d2, d2err != nil, fresh, strings.Join(fb, ","), acked, stillMapped, c2.Exiting(), bClosed, got, listed, wrong)
+}
+
+// --sync-every is handed to go-diskqueue unvalidated (nsqd.New checks neither sign nor zero; E9's theorems
+// assume 0 < syncEvery).  With 0 every pass of diskqueue's ioLoop syncs (`count == d.syncEvery` at count 0),
+// so the metadata file that Empty's deleteAllFiles removed is written again before Delete closes the queue.
+//   sync_every_zero_delete / _negative_delete / _one_delete: a disk backlog on tz and tz:c, then
+//   DeleteExistingChannel and DeleteExistingTopic; the files left under the data path are listed; then a
+//   restart-free re-creation must start empty.
+func vfE5ReplaySyncEvery(t *testing.T, name string) {
+	dir := t.TempDir()
+	opts := vfE5Opts(dir)
+	opts.MemQueueSize = 0
+	switch name {
+	case "sync_every_zero_delete":
+		opts.SyncEvery = 0
+	case "sync_every_negative_delete":
+		opts.SyncEvery = -1
+	default:
+		opts.SyncEvery = 1
+	}
+	n, err := New(opts)
+	if err != nil {
+		fmt.Printf("E5REPLAY %s new_refused=true err=%s\n", name, strings.ReplaceAll(err.Error(), " ", "_"))
+		return
+	}
+	n.LoadMetadata()
+	n.PersistMetadata()
+	go n.Main()
+	defer n.Exit()
+	topic := n.GetTopic("tz")
+	topic.Pause() // the topic keeps its own backlog on disk
+	ch := topic.GetChannel("c")
+	for i := 0; i < 3; i++ {
+		ch.PutMessage(NewMessage(topic.GenerateID(), []byte("chan-backlog")))
+		topic.PutMessage(NewMessage(topic.GenerateID(), []byte("topic-backlog")))
+	}
+	depth := ch.Depth() + topic.Depth()
+	list := func(prefix string) []string {
+		var l []string
+		ents, _ := os.ReadDir(dir)
+		for _, e := range ents {
+			if strings.HasPrefix(e.Name(), prefix) {
+				l = append(l, e.Name())
+			}
+		}
+		return l
+	}
+	d1 := vfE5Try(10*time.Second, func() { topic.DeleteExistingChannel("c") })
+	time.Sleep(20 * time.Millisecond)
+	chanLeft := list("tz:c.")
+	d2 := vfE5Try(10*time.Second, func() { n.DeleteExistingTopic("tz") })
+	time.Sleep(20 * time.Millisecond)
+	topicLeft := list("tz.")
+	re := n.GetTopic("tz").GetChannel("c")
+	fmt.Printf("E5REPLAY %s new_refused=false sync_every=%d depth_before=%d delete_chan=%s delete_topic=%s chan_files_left=%s topic_files_left=%s recreated_depth=%d\n",
+		name, opts.SyncEvery, depth, d1, d2, strings.Join(chanLeft, ","), strings.Join(topicLeft, ","), re.Depth()+n.GetTopic("tz").Depth())
 }
